@@ -22,7 +22,7 @@ func init() { register("C09", runC09, replayBySweep(runC09)) }
 
 // c09Identity builds identity bytes declaring (sig, crypto) with real-looking keys. For codes
 // the specification does not know the key lengths default to 32.
-func c09Identity(sig, cr int) ([]byte, refmodel.KeysAndCert) {
+func c09Identity(sig, cr int, extra []byte) ([]byte, refmodel.KeysAndCert) {
 	sl, cl := 32, 32
 	if si, ok := refmodel.SigTable[sig]; ok {
 		sl = si.PubLen
@@ -41,7 +41,7 @@ func c09Identity(sig, cr int) ([]byte, refmodel.KeysAndCert) {
 	}
 	crypto := refmodel.Fill("c09c", uint64(cr), cl)
 	crypto[0] = 0x11
-	k := refmodel.NewKAC(sig, cr, false, nil, crypto, refmodel.Fill("c09p", 1, 384-cl-len(signing)), signing)
+	k := refmodel.NewKAC(sig, cr, false, extra, crypto, refmodel.Fill("c09p", 1, 384-cl-len(signing)), signing)
 	return k.Bytes(), k
 }
 
@@ -284,18 +284,18 @@ func c09ViaELS(inner []byte) (int, int, bool) {
 
 func runC09(r *core.Run) {
 	r.Level = "model_checking"
-	r.Rule = "every API path that yields a Destination or RouterIdentity (16 paths: direct readers, pointer wrappers, constructors fed from ReadKeysAndCert and from NewKeysAndCert, the legacy LeaseSet reader, LeaseSet2 / MetaLeaseSet / RouterInfo embedding, AsDestination, compressible-padding constructor, decrypted inner LeaseSet2) x the full product of all known + boundary signing codes (21) and crypto codes (14), plus each axis over all 65,536 codes with the other axis at a permitted value for the four cheap reader paths. Oracle: path success => declared types not prohibited for that kind (independent table); every permitted pair the library can represent succeeds on every path. states = (path, pair) combinations, transitions = API calls. non-trivial = distinct (path, pair) on which the path succeeded"
+	r.Rule = "every API path that yields a Destination or RouterIdentity (16 paths: direct readers, pointer wrappers, constructors fed from ReadKeysAndCert and from NewKeysAndCert, the legacy LeaseSet reader, LeaseSet2 / MetaLeaseSet / RouterInfo embedding, AsDestination, compressible-padding constructor, decrypted inner LeaseSet2) x the full product of all known + boundary signing codes (21) and crypto codes (14) x KEY certificates with 0, 1 and 5 extra payload bytes, plus each axis over all 65,536 codes with the other axis at a permitted value for the four cheap reader paths. Oracle: path success => declared types not prohibited for that kind (independent table); every permitted pair the library can represent succeeds on every path. states = (path, pair) combinations, transitions = API calls. non-trivial = distinct (path, pair) on which the path succeeded"
 	sigCodes := []int{0, 1, 2, 3, 4, 5, 6, 7, 8, 9, 10, 11, 12, 20, 21, 255, 256, 65280, 65534, 65535}
 	crCodes := []int{0, 1, 2, 3, 4, 5, 6, 7, 8, 255, 256, 65280, 65534, 65535}
-	check := func(p c09Path, sig, cr int) {
+	check := func(p c09Path, sig, cr int, extra []byte) {
 		r.Evaluations.Add(1)
 		r.States.Add(1)
 		r.Transitions.Add(1)
-		id, k := c09Identity(sig, cr)
+		id, k := c09Identity(sig, cr, extra)
 		var gs, gc int
 		var ok bool
 		pan, msg := core.Guard(func() { gs, gc, ok = p.run(id, k, sig, cr) })
-		args := map[string]string{"path": p.name, "sig": fmt.Sprint(sig), "crypto": fmt.Sprint(cr)}
+		args := map[string]string{"path": p.name, "sig": fmt.Sprint(sig), "crypto": fmt.Sprint(cr), "extra_cert_payload": fmt.Sprint(len(extra))}
 		if pan {
 			r.Violate("C09|panic|"+p.name, fmt.Sprintf("%s panics for types %d/%d: %s", p.name, sig, cr, msg), core.Case{Kind: "pair", Args: args})
 			return
@@ -343,13 +343,18 @@ func runC09(r *core.Run) {
 			}
 		}
 	}
-	core.ParallelFor(len(jobs), func(_, i int) { check(jobs[i].p, jobs[i].sig, jobs[i].cr) })
+	core.ParallelFor(len(jobs), func(_, i int) {
+		check(jobs[i].p, jobs[i].sig, jobs[i].cr, nil)
+		// the same pair with a KEY certificate carrying extra payload bytes (valid, longer identity)
+		check(jobs[i].p, jobs[i].sig, jobs[i].cr, []byte{0xE1})
+		check(jobs[i].p, jobs[i].sig, jobs[i].cr, []byte{0xE1, 0xE2, 0xE3, 0xE4, 0xE5})
+	})
 	// full 16-bit axes for the cheap reader paths
 	cheap := []c09Path{c09Paths[0], c09Paths[4], c09Paths[5], c09Paths[8]}
 	core.ParallelFor(65536, func(_, code int) {
 		for _, p := range cheap {
-			check(p, code, 4)
-			check(p, 7, code)
+			check(p, code, 4, nil)
+			check(p, 7, code, nil)
 		}
 	})
 	r.Sample(map[string]any{"path": "lease_set.ReadLeaseSet.Destination", "pair": "8/4 (Ed25519ph / X25519)", "expect": "rejected"})
